@@ -524,6 +524,16 @@ impl<Sink: TokenSink> XmlTokenizer<Sink> {
         assert!(c.is_some());
     }
 
+    // Discard one raw input character, without newline normalization, so that
+    // it can be un-consumed verbatim later.  Meant to be used after `peek`.
+    fn discard_raw_char(&self, input: &BufferQueue) {
+        if self.reconsume.get() {
+            self.reconsume.set(false);
+        } else {
+            input.next();
+        }
+    }
+
     fn unconsume(&self, input: &BufferQueue, buf: StrTendril) {
         input.push_front(buf);
     }
